@@ -26,7 +26,9 @@ DevSpec == Init /\ [][DevNext]_vars
 DispNext == steps < MaxSteps /\
   \/ (nreq < MaxReq /\ \E fs \in {<<AH>>, <<AH, AP>>, <<AB>>, <<SH, A>>} : AppSubscribe(fs))
   \/ (nreq < MaxReq /\ \E fs \in {<<AH>>, <<AB, AP>>} : AppUnsubscribe(fs))
-  \/ \E r \in 1..nreq : PeerSuback(r, <<0, 1>>) \/ PeerSuback(r, <<128, 2>>) \/ PeerUnsuback(r)
+  \/ \E r \in 1..nreq, cs \in {<<0>>, <<128>>, <<0, 1>>, <<128, 2>>} :
+        ((\E i \in 1..Len(sb) : sb[i].r = r /\ Len(sb[i].fs) = Len(cs)) /\ PeerSuback(r, cs))
+  \/ \E r \in 1..nreq : PeerUnsuback(r)
   \/ \E t \in {AB, A, <<"sport">>, <<"c">>}, q \in 0..1 : PeerPublish(t, q, 11, "x")
   \/ \E t \in {AB, <<"sport">>} : PeerPublish2(t, 12, "y", FALSE) \/ PeerPublish2(t, 12, "z", TRUE)
   \/ PeerPubrel(12)
